@@ -14,8 +14,39 @@ SIZES = {"quick": 160, "thorough": 3500}
 OMIT = "omitted"
 
 
+def gen_long(rng):
+    """Determinants far outside the floating range while every entry is ordinary (|det| ~ 1e-400 .. 1e+400): only the
+    logarithm is representable - the reason slogdet exists."""
+    dt = S.pick(rng, ["f8", "c16"])
+    n = int(S.pick(rng, [400, 500, 640]))
+    mag = float(S.pick(rng, [0.1, 0.05, 10.0, 20.0]))
+    kind = S.pick(rng, ["Diagonal", "Diagonal", "ScalarMul", "Triangular", "KronDiag", "BlockDiagMult", "ProductDiag"])
+    def diag_vals(m):
+        sg = rng.choice([-1.0, 1.0], size=m)
+        if dt == "c16":
+            ph = np.exp(1j * rng.uniform(-3, 3, size=m))
+            return [{"re": float((mag * p).real), "im": float((mag * p).imag)} for p in ph]
+        return [float(mag * s_) for s_ in sg]
+    if kind == "Diagonal":
+        node = {"k": "Diagonal", "n": n, "dt": dt, "vals": diag_vals(n)}
+    elif kind == "ScalarMul":
+        node = {"k": "ScalarMul", "n": n, "dt": dt, "c": mag if rng.random() < 0.5 else -mag}
+    elif kind == "Triangular":
+        node = {"k": "Triangular", "n": n, "dt": dt, "seed": S.seed(rng), "lower": bool(rng.random() < 0.5), "diag": diag_vals(n)}
+    elif kind == "KronDiag":
+        node = {"k": "Kronecker", "via": "fn", "args": [{"k": "Diagonal", "n": 24, "dt": dt, "vals": diag_vals(24)}, {"k": "Diagonal", "n": 20, "dt": dt, "vals": diag_vals(20)}]}
+    elif kind == "BlockDiagMult":
+        node = {"k": "BlockDiag", "via": "ctor", "mult": [220, 1], "args": [{"k": "Diagonal", "n": 2, "dt": dt, "vals": diag_vals(2)}, {"k": "Diagonal", "n": 3, "dt": dt, "vals": diag_vals(3)}]}
+    else:
+        node = {"k": "Product", "via": "ctor", "args": [{"k": "Diagonal", "n": n, "dt": dt, "vals": diag_vals(n)}, {"k": "Diagonal", "n": n, "dt": dt, "vals": diag_vals(n)}]}
+    return {"spec": node, "log_alg": S.pick(rng, [OMIT, "Auto", "LU"]), "trace_alg": OMIT, "fn": "slogdet", "psd": False, "long": True}
+
+
 def gen(tier, rng, shard, nshards):
     for i in range(SIZES[tier]):
+        if rng.random() < 0.04:
+            yield gen_long(rng)
+            continue
         dt = S.pick(rng, ["f8", "f8", "c16", "f4", "c8"])
         psd = rng.random() < 0.35
         n = int(S.pick(rng, [1, 2, 3, 4, 5, 6, 8, 9, 12]))
@@ -88,8 +119,9 @@ def evaluate(ctx, node, case):
     out.append(("sign", bool(abs(sign - complex(want_sign)) <= tol), d))
     if ref.dtype.kind != "c":
         out.append(("sign-real-pm1", bool(abs(sign.imag) <= tol and abs(abs(sign.real) - 1) <= tol), d))
-    det = np.linalg.det(ref.M)
-    out.append(("det-reconstructed", bool(abs(sign * np.exp(logabs) - det) <= tol * max(abs(det), 1e-300) * 10), d))
+    if abs(want_log) < 600:  # (beyond that the determinant itself is not representable: only sign and logabs are judged)
+        det = np.linalg.det(ref.M)
+        out.append(("det-reconstructed", bool(abs(sign * np.exp(logabs) - det) <= tol * max(abs(det), 1e-300) * 10), d))
     ld = ctx.call(L.logdet, A, *args)
     if is_err(ld):
         out.append(("logdet", False, {"error": repr(ld)}))
